@@ -90,10 +90,24 @@ func runConcurrent(payload []*Sx) *Sx {
 		vals = append(vals, e.Attributes, e.Tags)
 	}
 
+	// optional: further requests, one per worker (round robin), each with its own sequential reference
+	reqs := []cedar.Request{req}
+	if len(payload) > 6 {
+		for _, x := range payload[6].List[1:] {
+			if c, ok := reqFromSx(x).concrete(); ok {
+				reqs = append(reqs, c)
+			}
+		}
+	}
 	before := snapshot(ps, em, req, vals)
 	// sequential reference results
 	dec0, diag0 := cedar.Authorize(ps, em, req)
 	auth0 := diagString(dec0, diag0)
+	authRef := make([]string, len(reqs))
+	for i, q := range reqs {
+		d, dg := cedar.Authorize(ps, em, q)
+		authRef[i] = diagString(d, dg)
+	}
 	batch0 := batchResultString(ps, em, breq)
 	cedar0 := string(ps.MarshalCedar())
 	json0, _ := json.Marshal(ps)
@@ -122,6 +136,13 @@ func runConcurrent(payload []*Sx) *Sx {
 					d, dg := cedar.Authorize(ps, em, req)
 					if diagString(d, dg) != auth0 {
 						report("authorize-differs")
+					}
+					for k := range reqs {
+						qi := (w + k) % len(reqs)
+						d, dg := cedar.Authorize(ps, em, reqs[qi])
+						if got := diagString(d, dg); got != authRef[qi] {
+							report("authorize-differs-on-request-" + fmt.Sprint(qi) + ": concurrent " + got + " sequential " + authRef[qi])
+						}
 					}
 				case 1:
 					if batchResultString(ps, em, breq) != batch0 {
@@ -163,6 +184,13 @@ func runConcurrent(payload []*Sx) *Sx {
 		}(w)
 	}
 	wg.Wait()
+	// the shared objects must also still answer as before once everything is quiet again
+	for i, q := range reqs {
+		d, dg := cedar.Authorize(ps, em, q)
+		if got := diagString(d, dg); got != authRef[i] {
+			problems = append(problems, "authorize-after-concurrent-use-differs-on-request-"+fmt.Sprint(i))
+		}
+	}
 	after := snapshot(ps, em, req, vals)
 	if before != after {
 		problems = append(problems, "inputs-mutated")
